@@ -64,7 +64,7 @@ def is_hidden_path(p):
     return any(c.startswith('.') for c in p.split('/'))
 
 
-def layout(pl, rng, p_sub=0.35, p_ignore=0.12, p_dup=0.12, p_second=0.1):
+def layout(pl, rng, p_sub=0.35, p_ignore=0.12, p_dup=0.12, p_second=0.1, p_third=0.0):
     """choose Manifests, IGNOREs, entry types and hash sets; fills pl.manifests with entry dicts:
        {'tag','path'(relative to the Manifest dir),'target'(tree relpath),'hashes'}"""
     mdirs = {'': ['Manifest']}
@@ -74,6 +74,8 @@ def layout(pl, rng, p_sub=0.35, p_ignore=0.12, p_dup=0.12, p_second=0.1):
             mdirs[d] = [nm]
             if rng.random() < p_second:
                 mdirs[d].append('Manifest.extra')
+                if p_third and rng.random() < p_third:
+                    mdirs[d].append('Manifest.deep')       # a chain of three in one directory: nm -> Manifest.extra -> Manifest.deep
     for d, nms in mdirs.items():
         for nm in nms:
             pl.manifests[os.path.join(d, nm) if d else nm] = []
@@ -166,6 +168,9 @@ def layout(pl, rng, p_sub=0.35, p_ignore=0.12, p_dup=0.12, p_second=0.1):
         sibs = [m for m in mdirs[d] if (os.path.join(d, m) if d else m) != mp]
         if os.path.basename(mp) == 'Manifest.extra' and sibs:
             parent = os.path.join(d, sibs[0]) if d else sibs[0]
+            gdir = d
+        elif os.path.basename(mp) == 'Manifest.deep' and 'Manifest.extra' in sibs:
+            parent = os.path.join(d, 'Manifest.extra') if d else 'Manifest.extra'
             gdir = d
         else:
             g = up
@@ -271,14 +276,19 @@ def listed_files(pl):
     return sorted(set(out))
 
 
-def mutate_tree(pl, rng, root):
+def mutate_tree(pl, rng, root, spare_manifests=False):
     """apply one mutation to the on-disk tree; returns (kind, relpath, must_fail) where must_fail says
-    whether a whole-tree verification must now report a mismatch (None = not decided by construction)"""
+    whether a whole-tree verification must now report a mismatch (None = not decided by construction).
+    spare_manifests: leave files named like Manifests alone (edits behind the back of a live loader object)"""
     lf = [p for p in listed_files(pl) if os.path.isfile(os.path.join(root, p)) and not os.path.islink(os.path.join(root, p))]
+    if spare_manifests:
+        lf = [p for p in lf if not os.path.basename(p).startswith('Manifest')]
     kinds = ['content-same-size', 'content-other-size', 'delete', 'stray', 'stray-hidden', 'stray-in-ignored', 'retype-dir',
              'retype-fifo', 'retype-dangling', 'touch', 'stray-dir-with-file', 'stray-lookalike', 'stray-named-like-top-manifest',
              'delete-dir']
     k = rng.choice(kinds)
+    if spare_manifests and k == 'stray-named-like-top-manifest':
+        k = 'stray'
     def visible(p):
         return not is_hidden_path(p) and not any(p == i or p.startswith(i + '/') for i in pl.ignored)
     if k in ('content-same-size', 'content-other-size', 'delete', 'retype-dir', 'retype-fifo', 'retype-dangling', 'touch'):
